@@ -133,6 +133,8 @@ def main(argv=None):
             fail_counts.update(summary["fail_counts"])
             for k, v in summary.get("notes", {}).items():
                 notes.setdefault(k, v)
+            for r in summary.get("inconclusive", []):
+                problems.append(f"shard {i}: {r}")
         fpath = os.path.join(outdir, "fails.jsonl")
         if os.path.exists(fpath):
             with open(fpath) as f:
